@@ -33,12 +33,13 @@ class EventTriggerDecorator(TriggerDecorator, ExpressionDecorator):
 
     async def _event_callback(self, event: Event) -> None:
         _LOGGER.debug("Event trigger received: %s %s", type(event), event)
+        # the event's data, then the trigger's own arguments: a data key of the same name does not replace them
         func_args = {
+            **event.data,
             "trigger_type": "event",
             "event_type": event.event_type,
             "context": event.context,
         }
-        func_args.update(event.data)
         if self.has_expression():
             if not await self.check_expression_vars(func_args):
                 return
